@@ -18,7 +18,7 @@ func (c cfgSpec) buildOrders(thorough bool) (devs []orderDev, sites int) {
 	return make([]orderDev, repetitions), 0
 }
 
-func (c cfgSpec) buildWith(d orderDev) (cfg *risorConfig, globals map[string]any, panicked string) {
-	cfg, globals, _, panicked = c.build()
+func (c cfgSpec) buildWith(d orderDev) (cfg *risorConfig, globals map[string]any, repl object.Object, panicked string) {
+	cfg, globals, repl, panicked = c.build()
 	return
 }
